@@ -12,10 +12,16 @@ def reset():
 src = os.path.abspath(sys.argv[1])
 only = set(sys.argv[2].split(",")) if len(sys.argv) > 2 else None
 results = {}
-for prop in sorted(os.listdir(src)):
-    for k in ("r1", "r2", "r3", "r4"):
-        d = os.path.join(src, prop, k)
-        rid = f"{prop}-{k}"
+entries = []
+for name in sorted(os.listdir(src)):
+    d0 = os.path.join(src, name)
+    if os.path.isfile(os.path.join(d0, "patch.diff")):  # flat layout: <src>/<id>/patch.diff (seeded/refactors)
+        entries.append((name.split("-")[0] if name.startswith("C") else "", name, d0))
+    elif os.path.isdir(d0):
+        for k in ("r1", "r2", "r3", "r4"):
+            entries.append((name, f"{name}-{k}", os.path.join(d0, k)))
+for prop, rid, d in entries:
+    if True:
         if not os.path.isfile(os.path.join(d, "patch.diff")) or (only and rid not in only):
             continue
         reset()
